@@ -128,7 +128,8 @@ class Session:
 def run_path(topo, up, mode, origins, sizes, nsess, per, sid0):
     sessions = [Session(sid0 + k, topo, up, mode) for k in range(nsess)]
     dsts = [("ipv4", "127.0.0.1", origins[0].port)] if mode == "reverse" else \
-        [("ipv4", "127.0.0.1", origins[0].port), ("domain", "localhost", origins[0].port), ("ipv4", "127.0.0.1", origins[1].port)]
+        [("ipv4", "127.0.0.1", origins[0].port), ("domain", "localhost", origins[0].port), ("ipv4", "127.0.0.1", origins[1].port),
+         ("domain", "localhost", origins[1].port)]      # the same name on two ports within one session
     for seq in range(per):
         for s in sessions:            # interleaved traffic of all sessions
             dst = dsts[(seq + s.sid) % len(dsts)]
